@@ -22,7 +22,7 @@ EXHAUSTIVE = {"quick": ["every count vector with N=2..12, K<=4 (zeros allowed)",
               "thorough": ["every count vector with N=2..22, K<=5", "two-sample: every pair K<=3, N1,N2<=6"]}
 REQUIRE = {"vectors_checked": 1190, "varpc_exact_identities": 1000, "pc_exact_identities": 1190, "stdpc_n_checked": 300,
            "stdpc_sample_checked": 100, "expectation_identities_pc": 12, "expectation_identities_var": 8,
-           "expectation_identities_two_sample": 4, "two_sample_vectors": 200, "two_sample_tables": 50, "stdpc_joint_checked": 6, "large_vectors": 7, "big_samples": 2}
+           "expectation_identities_two_sample": 4, "two_sample_vectors": 200, "two_sample_tables": 50, "stdpc_joint_checked": 6, "large_vectors": 7, "big_samples": 2, "pc_n_narrow_dtype_checked": 100}
 SHARDS = {"quick": 6, "thorough": 16}
 
 
@@ -91,6 +91,14 @@ def _check_vector(ctx, n, stats, realise=True):
     fl = ctx.call(prs.pc_n, np.array(n))
     if not fl.ok or not _close(fl.value, want_pc):
         ctx.violation("pc_n:float:wrong", "pc_n on an integer array differs from the exact U-statistic", fl.describe(), str(want_pc), {"n": list(n)})
+    # narrow integer dtypes, only where every single term n_i(n_i-1) and N(N-1) still fits the dtype
+    for dt, lim in ((np.int16, 2 ** 15 - 1), (np.uint16, 2 ** 16 - 1), (np.int32, 2 ** 31 - 1)):
+        if max(n) * (max(n) - 1) <= lim and N <= lim and (dt is not np.int32 or N > 60000):
+            nd = ctx.call(prs.pc_n, np.array(n, dtype=dt))
+            ctx.count("pc_n_narrow_dtype_checked")
+            if not nd.ok or not _close(nd.value, want_pc):
+                ctx.violation(f"pc_n:{np.dtype(dt).name}:wrong", "pc_n on a narrow-integer count array differs from the exact U-statistic (overflow?)",
+                              nd.describe(), str(want_pc), {"n": list(n)})
     if N >= 4:
         want_var = want_pc * want_pc - O.U22(n)
         ev = _exact_call(ctx, prs.varpc_n, n)
@@ -140,10 +148,11 @@ def k_vec(ctx, n):
 def k_two(ctx, N1, N2, K):
     import pyrepseq as prs
     cnt = 0
+    lab = ["CAS", "CASS", "CASSL", "CASSLG", "C"]        # labels that are prefixes of each other, of different widths
     for n1 in G.count_vectors(N1, K):
-        xs = [f"c{i}" for i, m in enumerate(n1) for _ in range(m)]
+        xs = [lab[i] for i, m in enumerate(n1) for _ in range(m)]
         for n2 in G.count_vectors(N2, K):
-            ys = [f"c{i}" for i, m in enumerate(n2) for _ in range(m)]
+            ys = [lab[i] for i, m in enumerate(n2) for _ in range(m)]
             want = Fraction(sum(a * b for a, b in zip(n1, n2)), N1 * N2)
             out = ctx.call(prs.pc, xs, ys)
             cnt += 1
@@ -314,6 +323,8 @@ def generate(tier, seed):
         for r in range(3 if thorough else 2):
             yield "expect", {"N": N1, "N2": N2, "K": 3, "p": _rand_p(rng, 3), "q": _rand_p(rng, 3)}, True
     # large random vectors
+    for n in ([150, 150, 150], [181, 120, 100, 90], [40000, 40000, 30000], [46000, 46000], [200, 200, 200, 200, 200]):
+        yield "vec", {"n": n}, True
     for i in range(400 * TS if thorough else 40):
         K = rng.randint(1, 30)
         scale = rng.choice([10, 1000, 30000])
